@@ -393,6 +393,24 @@ func c19Families(tier string) []explore.Family {
 		}
 		c19OpaqueBodies(r, q, true)
 	}})
+	// punctuation that means something elsewhere: hyphens (the trim marker's own character) inside delimiters, characters
+	// special to regular expressions, the default delimiters' own characters in other roles
+	meta := [][4]string{{"<-", "->", "<%-", "-%>"}, {"(*", "*)", "(+", "+)"}, {"^", "$", "~", "?"}, {"(?", "?)", "[^", "^]"}, {`\(`, `\)`, `\[`, `\]`}, {"-~", "~-", "-^", "^-"}, {"#{", "}#", "#%", "%#"},
+		{"{%", "%}", "{{", "}}"}, {"--", "-~", "-+", "+-"}, {"^^", "$$", "^$", "$^"}}
+	fams = append(fams, explore.Family{Name: "punctuation-with-a-meaning-elsewhere", Count: int64(len(meta)), Run: func(i int64, r *explore.Rec) {
+		q := meta[i]
+		if !c19Valid(q) {
+			panic(explore.BaselineFailure{Msg: "harness: invalid quadruple " + fmt.Sprint(q)})
+		}
+		r.Trace()
+		for ti := 0; ti < len(c19Templates); ti++ {
+			if strings.Contains(c19Templates[ti], "DEF(") && strings.ContainsAny(strings.Join(q[:], ""), "{}%") {
+				continue // default-spelled text is not ordinary text when the delimiters are made of the same characters
+			}
+			c19Compare(r, ti, q, q, "meaning-elsewhere:"+strings.Join(q[:], " "))
+		}
+		c19OpaqueBodies(r, q, true)
+	}})
 	// each subset of positions left empty = default at that position
 	reps := [][4]string{{"<", ">", "[", "]"}, {"<<", ">>", "<$", "$>"}, {"[", "]", "<", ">"}, {"$", `\`, "<", ">"}, {"<[", "]>", "[<", ">]"}, {"<", ">>", "[[", "]"}}
 	if tier == "thorough" {
